@@ -62,12 +62,25 @@ class Anchors:
         self.cfg = cfg_of(model, f)
         self.nz = Normalizer(model, f, self.cfg)
         pat = re.compile(r'^(?P<table>[\w.]+)\[\$' + re.escape(self.p_style) + r'\]\((?P<arg>.*)\)$')
-        self.arg_pat = re.compile(r'^(?P<split>[\w.]+)\(\$' + re.escape(self.p_field) + r'\)$')
+        # SPLIT(field) or SPLIT(field, <options>): the field name is the first argument
+        self.arg_pat = re.compile(r'^(?P<split>[\w.]+)\(\$' + re.escape(self.p_field) + r'(, .*)?\)$')
+        # (node, normal form, match, guards of conditional expressions the value sits in: [(literal, required truth)])
         self.returns: t.List[t.Tuple[Node, str, t.Optional[t.Match[str]]]] = []
+        self.expr_guards: t.Dict[int, t.List[t.Tuple[str, bool]]] = {}
+
+        def alts(e: ast.expr, n: Node, guards: t.List[t.Tuple[str, bool]]) -> t.Iterator[t.Tuple[ast.expr, t.List[t.Tuple[str, bool]]]]:
+            if isinstance(e, ast.IfExp):
+                text, pos = self.nz.literal(e.test, n)
+                yield from alts(e.body, n, guards + [(text, pos)])
+                yield from alts(e.orelse, n, guards + [(text, not pos)])
+            else:
+                yield e, guards
         for n in self.cfg.live_nodes():
             if n.kind == 'return' and n.ast is not None and n.ast.value is not None:
-                text = self.nz.expr(n.ast.value, n)
-                self.returns.append((n, text, pat.match(text)))
+                for (e, guards) in alts(n.ast.value, n, []):
+                    text = self.nz.expr(e, n)
+                    self.returns.append((n, text, pat.match(text)))
+                    self.expr_guards[len(self.returns) - 1] = guards
         apps = [m for (_n, _t, m) in self.returns if m]
         if not apps:
             raise AnalysisError(f"{f.loc()}: rename_field has no return of the form TABLE[style](SPLIT(field)); "
@@ -406,7 +419,8 @@ def rule_c20_r1(model: Model) -> RuleResult:
                 none_conds.append((n, 'T' if pos else 'F'))
             elif text in (f'${a.p_style}', f'TRUTHY(${a.p_style})'):     # `if not style` (no style is the empty string)
                 none_conds.append((n, 'F' if pos else 'T'))
-    for (n, text, m) in a.returns:
+    none_texts = {(f'${a.p_style} is None', True), (f'None is ${a.p_style}', True), (f'${a.p_style}', False), (f'TRUTHY(${a.p_style})', False)}
+    for idx, (n, text, m) in enumerate(a.returns):
         r.instances += 1
         r.sample({'return': text, 'line': n.ast.lineno})
         if m and a.arg_pat.match(m.group('arg')):
@@ -415,7 +429,7 @@ def rule_c20_r1(model: Model) -> RuleResult:
             r.fail(f.qualname, f"joiner applied to {m.group('arg')}", f.loc(n.ast),
                    "the style's joiner is not given the split words of the field name")
         elif text == f'${a.p_field}':
-            if any(a.cfg.edge_dominates(c, lb, n) for (c, lb) in none_conds):
+            if any(a.cfg.edge_dominates(c, lb, n) for (c, lb) in none_conds) or any(g in none_texts for g in a.expr_guards.get(idx, [])):
                 r.ok()
             else:
                 r.fail(f.qualname, 'the field name is returned unchanged although a style is given', f.loc(n.ast),
@@ -599,6 +613,14 @@ def _regexes(model: Model, funcs: t.List[FuncInfo]) -> t.List[Rx]:
             q = model.resolve(x.func, f.module, f)
             if q in RE_FUNCS and x.args:
                 pat = x.args[0]
+                if isinstance(pat, ast.Name) and isinstance(f.node, ast.FunctionDef):
+                    # a parameter with a default: the pattern the function is normally used with
+                    a_ = f.node.args
+                    pos = a_.posonlyargs + a_.args
+                    dmap = dict(zip([p_.arg for p_ in pos][len(pos) - len(a_.defaults):], a_.defaults))
+                    dmap.update({p_.arg: d for p_, d in zip(a_.kwonlyargs, a_.kw_defaults) if d is not None})
+                    if pat.id in dmap:
+                        pat = dmap[pat.id]
                 if isinstance(pat, ast.Name):
                     v = f.module.assign_values.get(pat.id)
                     if isinstance(v, ast.Constant):
